@@ -483,6 +483,7 @@ def run(ctx):
     ctx.rule("R-REG", "decision table of a comparison-only function equals the interval definition on every ordering")
     K.check_block_predicates(ctx, f)
     check_sweeps(ctx, f)
+    check_no_limit_sentinel(ctx, f)
     K.check_bool_table(ctx, f, "R-REG", "ca::provisioning::RequestResourceLimit::is_empty",
                        [(r"^Option::is_none\(self\.asn\)$", "asn"), (r"^Option::is_none\(self\.ipv4\)$", "v4"),
                         (r"^Option::is_none\(self\.ipv6\)$", "v6")],
@@ -628,6 +629,39 @@ def run(ctx):
         ctx.ob("R-PANIC", "AsRange::asn_count:full-range-overflow", not pan,
                "AsRange::asn_count cannot overflow (max − min + 1 fits u32)", where=ac.loc,
                detail=[p.describe() for p in pan][:2] or None)
+
+
+# ---------------------------------------------------------------------------------------------
+# C03.k — "no limit" and "the empty set" stay apart in the serde form of a resource limit
+
+def check_no_limit_sentinel(ctx, f):
+    """An absent component of a RequestResourceLimit means "no limit", an empty one "nothing of this kind" — opposite
+    requests.  Present components are written as their text (the empty set as the empty string); the hand-written
+    deserialisers additionally read the legacy word "none" as absent.  Every place where one of them answers `None` must
+    lie behind the comparison of the deserialised text with that word: any other text — in particular the empty one —
+    goes to the blocks parser."""
+    n = 0
+    for name, b in sorted(f.bodies.items()):
+        if not name.startswith("ca::provisioning::") or K.is_derived_body(b) or "{closure" in name:
+            continue
+        if not re.match(r"^std::result::Result<std::option::Option<.*>, .*>$", b.ret_ty or ""):
+            continue
+        if not any(c.name == "deserialize" and "String" in (c.res or "") for c in b.calls()):
+            continue
+        nones = [bi for bi, blk in enumerate(b.blocks) if not blk.get("cleanup") for st in blk["stmts"]
+                 if st["s"] == "assign" and st["rv"]["r"] == "agg" and st["rv"].get("adt") == "std::option::Option"
+                 and st["rv"].get("variant") == "None"]
+        ctx.saw_fn(name)
+        n += 1
+        bad = []
+        for bi in nones:
+            g = K.dominating_guards(f, b, bi)
+            if not any(re.search(r"deserialize\(.*\).* == b'none'$", x) for x in g):
+                bad.append({"line": b.line_of(bi), "guards": g})
+        ctx.ob("R-GRD", "%s:none-only-for-the-legacy-word" % short(name), bool(nones) and not bad,
+               "%s answers None (no limit) only for the text \"none\"; every other text, the empty one included, is parsed as a "
+               "set" % short(name), where=b.loc, detail=bad or None)
+    ctx.floor("R-GRD", "hand-written Option<blocks> deserialisers of the resource limit", n, 1)
 
 
 # ---------------------------------------------------------------------------------------------
